@@ -2,7 +2,7 @@
 import ast
 
 from ..model import AnalysisError, dotted, unparse
-from ..util import U, enum_paths, walk_no_nested, is_yield_call
+from ..util import POS, U, enum_paths, walk_no_nested, is_yield_call
 from ..paths import call_attr, call_name
 from .c03 import facts
 from . import c04, c05
@@ -122,7 +122,7 @@ def r2(ctx):
     ctx.ob('C06.R2', c, 'a member is removed only with more than min_size healthy members', healthy and len(rm) == 1, 'removal under facts %s' % before, whyc)
     ctx.ob('C06.R2', c, 'a member is removed only when nothing is pending, unless forced', pend_ok, 'removal under facts %s' % before, whyc)
     epn = U(rm[0][1].args[0])
-    np = any(c_.endswith('notinself._pending_endpoints') and t for c_, t in before) or any(c_.endswith('inself._pending_endpoints') and 'notin' not in c_ and not t for c_, t in before)
+    np = any(c_.endswith('notinself._pending_endpoints') and t for c_, t in POS(before)) or any(c_.endswith('inself._pending_endpoints') and 'notin' not in c_ and not t for c_, t in POS(before))
     ctx.ob('C06.R2', c, 'the evicted member is not a pending one', np, 'victim %s chosen without a not-pending fact: %s' % (epn, before), whyc)
   ctx.floor('C06.R2', 'removal paths of _ContractAperture', n_rm, 2)
   # preference: the closed-member scan comes first
@@ -169,7 +169,7 @@ def r3(ctx):
   for ev, ex in enum_paths(ctx, nd):
     fs = facts(ev)
     exp = [e for e in ev if e.kind == 'call' and U(e.node.func) == 'self._TryExpandAperture']
-    idle = any('ChannelState.Idle' in c and ((c.replace('(', '').find('!=') > 0 and not t) or ('==' in c and t)) for c, t in fs)
+    idle = any('ChannelState.Idle' in c and ((c.replace('(', '').find('!=') > 0 and not t) or ('==' in c and t)) for c, t in POS(fs))
     if idle:
       seen['idle'] = not exp
     else:
